@@ -2,6 +2,7 @@ package model
 
 import (
 	"math"
+	"strings"
 
 	"google.golang.org/protobuf/encoding/protowire"
 	"google.golang.org/protobuf/reflect/protoreflect"
@@ -513,4 +514,74 @@ func mapish(md protoreflect.MessageDescriptor) []protoreflect.FieldDescriptor {
 	}
 	mapishCache[md.FullName()] = out
 	return out
+}
+
+// DrawScalarPayload draws the canonical wire payload (no tag) of one scalar
+// value for fd's kind (enum: any int32). The payload is the serialisable form
+// of the value; DecodeScalar turns it back into a protoreflect.Value.
+func DrawScalarPayload(t *rapid.T, fd protoreflect.FieldDescriptor) []byte {
+	c := &StreamCfg{Canonical: true}
+	return c.scalarPayload(t, nil, fd)
+}
+
+// DecodeScalar decodes a payload produced by DrawScalarPayload.
+func DecodeScalar(fd protoreflect.FieldDescriptor, b []byte) protoreflect.Value {
+	switch fd.Kind() {
+	case protoreflect.BoolKind:
+		v, _ := protowire.ConsumeVarint(b)
+		return protoreflect.ValueOfBool(v != 0)
+	case protoreflect.EnumKind:
+		v, _ := protowire.ConsumeVarint(b)
+		return protoreflect.ValueOfEnum(protoreflect.EnumNumber(int32(v)))
+	case protoreflect.Int32Kind:
+		v, _ := protowire.ConsumeVarint(b)
+		return protoreflect.ValueOfInt32(int32(v))
+	case protoreflect.Sint32Kind:
+		v, _ := protowire.ConsumeVarint(b)
+		return protoreflect.ValueOfInt32(int32(protowire.DecodeZigZag(v & math.MaxUint32)))
+	case protoreflect.Uint32Kind:
+		v, _ := protowire.ConsumeVarint(b)
+		return protoreflect.ValueOfUint32(uint32(v))
+	case protoreflect.Int64Kind:
+		v, _ := protowire.ConsumeVarint(b)
+		return protoreflect.ValueOfInt64(int64(v))
+	case protoreflect.Sint64Kind:
+		v, _ := protowire.ConsumeVarint(b)
+		return protoreflect.ValueOfInt64(protowire.DecodeZigZag(v))
+	case protoreflect.Uint64Kind:
+		v, _ := protowire.ConsumeVarint(b)
+		return protoreflect.ValueOfUint64(v)
+	case protoreflect.Sfixed32Kind:
+		v, _ := protowire.ConsumeFixed32(b)
+		return protoreflect.ValueOfInt32(int32(v))
+	case protoreflect.Fixed32Kind:
+		v, _ := protowire.ConsumeFixed32(b)
+		return protoreflect.ValueOfUint32(v)
+	case protoreflect.FloatKind:
+		v, _ := protowire.ConsumeFixed32(b)
+		return protoreflect.ValueOfFloat32(math.Float32frombits(v))
+	case protoreflect.Sfixed64Kind:
+		v, _ := protowire.ConsumeFixed64(b)
+		return protoreflect.ValueOfInt64(int64(v))
+	case protoreflect.Fixed64Kind:
+		v, _ := protowire.ConsumeFixed64(b)
+		return protoreflect.ValueOfUint64(v)
+	case protoreflect.DoubleKind:
+		v, _ := protowire.ConsumeFixed64(b)
+		return protoreflect.ValueOfFloat64(math.Float64frombits(v))
+	case protoreflect.StringKind:
+		v, _ := protowire.ConsumeBytes(b)
+		return protoreflect.ValueOfString(string(v))
+	case protoreflect.BytesKind:
+		v, _ := protowire.ConsumeBytes(b)
+		return protoreflect.ValueOfBytes(append([]byte{}, v...))
+	}
+	panic("DecodeScalar: " + fd.Kind().String())
+}
+
+// CanonValue renders one scalar value canonically.
+func CanonValue(fd protoreflect.FieldDescriptor, v protoreflect.Value) string {
+	var b strings.Builder
+	canonVal(&b, fd, v, Same, 0)
+	return b.String()
 }
